@@ -297,6 +297,10 @@ func extractDMVersions(c *Ctx, r *Report, rule string) []dmVerRow {
 
 func checkC08(c *Ctx, r *Report) {
 	checkSharedStores(c, r, "datamatrix", 10) // encoder / decoder working storage is per call (also C18)
+	// the module matrix reaches the caller through convertByteMatrixToBitMatrix: rectangular symbols keep width and
+	// height apart there (same obligations as under C14)
+	declareRenderRules(r, 1)
+	renderDM(c, r)
 
 	r.exhaustive = true
 	if msg := refDMSelfCheck(); msg != "" {
@@ -316,7 +320,7 @@ func checkC08(c *Ctx, r *Report) {
 }
 
 func checkDMTables(c *Ctx, r *Report) {
-	r.Rule("T-DMSYM", "each of the 30 encoder symbols rows equals ISO 16022 Table 7 (shape, data/error codewords, region size, region count, per-block data/error sizes) and the table is ordered by non-decreasing capacity", 30)
+	r.Rule("T-DMSYM", "each of the 30 encoder symbols rows equals ISO 16022 Table 7 (shape, data/error codewords, region size, region count, per-block data/error sizes) and the table is ordered by non-decreasing capacity, a square before a rectangle of the same capacity", 30)
 	r.Rule("T-DMVER", "decoder versions 1..30 equal ISO 16022 Table 7 (symbol size, region size, EC codewords per block, block groups) with totalCodewords as folded from NewVersion equal to mapping area / 8; DMRE rows 31..48 satisfy the same geometric identities", 48)
 	r.Rule("S-DMTABLE", "for each ISO size the encoder row and the decoder row describe the same symbol (size, regions, codewords, blocks)", 30)
 	syms := extractDMSymbols(c, r, "T-DMSYM")
@@ -328,6 +332,7 @@ func checkDMTables(c *Ctx, r *Report) {
 	// encoder
 	seen := map[[2]int]bool{}
 	prevCap := 0
+	prevRect := false
 	regionsHV := map[int][2]int{1: {1, 1}, 2: {2, 1}, 4: {2, 2}, 16: {4, 4}, 36: {6, 6}}
 	symByDim := map[[2]int]dmSymRow{}
 	for i, s := range syms {
@@ -359,8 +364,11 @@ func checkDMTables(c *Ctx, r *Report) {
 			bad = "the special 144x144 constructor is used for another size"
 		case s.data < prevCap:
 			bad = fmt.Sprintf("capacity %d follows capacity %d: the first-fit lookup needs non-decreasing order", s.data, prevCap)
+		case s.data == prevCap && !s.rect && prevRect:
+			bad = fmt.Sprintf("this square follows a rectangle of the same capacity (%d): without a shape hint the first-fit lookup must answer the square, the smaller symbol", s.data)
 		}
 		seen[[2]int{rows, cols}] = true
+		prevRect = s.rect
 		prevCap = s.data
 		symByDim[[2]int{rows, cols}] = s
 		r.Check(bad == "", "T-DMSYM", key, s.pos, bad)
